@@ -73,12 +73,14 @@ theorem findP_filter_ne (l : List ProxyRes) (m a : String) :
         · rfl
       · rfl
 
-theorem addProxy_ok (s : Store) (addr n0 n1 : String) (host : Option String) :
-    StepOk s (addProxy s addr n0 n1 host).1 := by
+theorem addProxy_ok (s : Store) (addr n0 n1 : String) (host : Option String) (index : Option Nat) :
+    StepOk s (addProxy s addr n0 n1 host index).1 := by
   unfold addProxy
   split
   · exact (OpOk.refl s).toStepOk
   · simp only
+    split
+    · exact (OpOk.refl s).toStepOk
     by_cases hex : (s.findProxy addr).isSome = true
     · -- already registered: the record list is untouched
       simp only [hex, ↓reduceIte, Bool.not_true, Bool.false_or]
@@ -145,7 +147,7 @@ theorem step_cases (s : Store) (op : Op) : step s op = s ∨ step s op = (stepFu
 
 theorem stepFull_ok (s : Store) (op : Op) : StepOk s (stepFull s op).1 := by
   cases op with
-  | addProxy a n0 n1 h => exact addProxy_ok s a n0 n1 h
+  | addProxy a n0 n1 h i => exact addProxy_ok s a n0 n1 h i
   | removeProxy a => exact removeProxy_ok s a
   | addCluster n k c => exact (addCluster_ok s n k defaultConfig c).toStepOk
   | removeCluster n => exact (removeCluster_ok s n).toStepOk
@@ -163,6 +165,11 @@ theorem stepFull_ok (s : Store) (op : Op) : StepOk s (stepFull s op).1 := by
   | bumpAll e => exact (forceBumpAllEpoch_ok s e).toStepOk
   | recover e => exact (recoverEpoch_ok s e).toStepOk
   | addFailure a r t => exact (addFailure_ok s a r t).toStepOk
+  | setOrdered =>
+    -- mode selection on a fresh store: clusters, proxies and the epoch are untouched
+    exact (OpOk.of_same (s' := s.setOrdered) (by unfold Store.setOrdered; split <;> rfl)
+      (by unfold Store.setOrdered; split <;> rfl)
+      (by unfold Store.setOrdered; split <;> exact Nat.le_refl _)).toStepOk
 
 theorem step_ok (s : Store) (op : Op) : StepOk s (step s op) := by
   rcases step_cases s op with h | h
